@@ -137,7 +137,7 @@ theorem relF_initSt (m : Nat → Nat) : RelF m initSt Ref.initSt 0 := by
     | zero => omega
     | succ i => rfl
   refine ⟨rfl, ?_, ⟨_, rfl, rfl, rfl⟩, ?_, rfl, ⟨none, ChainF.root _ rfl rfl rfl, FnChainF.root _ 0 (by decide) rfl ⟨[], rfl⟩⟩, ?_,
-    rfl, rfl, globals_initSt, ?_, fun _ _ _ _ _ _ _ => rfl⟩
+    rfl, rfl, globals_initSt, ?_, fun _ _ _ _ _ _ _ => rfl, ⟨rfl, fun id lz h => by simp [initSt] at h⟩⟩
   · intro i x
     cases i with
     | zero =>
